@@ -2,6 +2,7 @@ package checks
 
 import (
 	"fmt"
+	"strings"
 
 	"verif/internal/back"
 	"verif/internal/model"
@@ -47,13 +48,14 @@ var c09States = []string{"absent", "lit-true", "lit-false", "var-true", "var-fal
 
 func runC09(c *run.Ctx) {
 	c.Rule = "complete table: {absent, literal true/false, variable true/false, defaulted variable true/false}^2 for (@skip,@include) x both orders x " +
-		"{leaf field, composite field, inline fragment, fragment spread} x depth {0,1,2} x back-ends {iface, any, reflect}; oracle: truth table " +
+		"{leaf field, composite field, inline fragment, fragment spread, __typename, __schema, __type} x depth {0,1,2} x back-ends {iface, any, reflect}, plus parse-once histories: " +
+		"variable-driven conditions (required / default true / default false) resolved under every assignment in shuffled and table order on ONE parsed executable, also as two operations sharing a fragment with opposite defaults; oracle: truth table " +
 		"present <=> not(skip true) and not(include false), plus resolver call log (no call for excluded selections) and the reference executor; " +
 		"every case is non-trivial unless both directives are absent; distinct by (document text, variables, back-end)"
 	c.Exhaustive = true
 	s := c09Schema()
 	sdl := s.SDL(model.SDLOpts{})
-	kinds := []string{"field-leaf", "field-composite", "inline", "spread"}
+	kinds := []string{"field-leaf", "field-composite", "inline", "spread", "meta-typename", "meta-schema", "meta-type"}
 	types := []string{"Query", "A", "B"}
 	total := 0
 	for _, bk := range []string{"iface", "any", "reflect"} {
@@ -68,6 +70,9 @@ func runC09(c *run.Ctx) {
 				for order := 0; order < 2; order++ {
 					for _, kind := range kinds {
 						for depth := 0; depth < 3; depth++ {
+							if (kind == "meta-schema" || kind == "meta-type") && depth > 0 {
+								continue // __schema and __type only exist on the query root
+							}
 							total++
 							vars := map[string]interface{}{}
 							var vdefs []*model.VarDef
@@ -127,6 +132,15 @@ func runC09(c *run.Ctx) {
 							case "field-composite":
 								key = "sub"
 								target = &model.Field{Name: "sub", Dirs: dirs, Sels: []model.Sel{&model.Field{Name: "inner"}}}
+							case "meta-typename":
+								key = "__typename"
+								target = &model.Field{Name: "__typename", Dirs: dirs}
+							case "meta-schema":
+								key = "__schema"
+								target = &model.Field{Name: "__schema", Dirs: dirs, Sels: []model.Sel{&model.Field{Name: "queryType", Sels: []model.Sel{&model.Field{Name: "name"}}}}}
+							case "meta-type":
+								key = "__type"
+								target = &model.Field{Name: "__type", Dirs: dirs, Args: []model.Arg{{Name: "name", Value: "A"}}, Sels: []model.Sel{&model.Field{Name: "name"}}}
 							case "inline":
 								target = &model.Inline{Cond: tname, Dirs: dirs, Sels: []model.Sel{&model.Field{Name: "tgt"}}}
 							case "spread":
@@ -140,6 +154,7 @@ func runC09(c *run.Ctx) {
 							op := &model.Op{Kind: "query", Name: "Q", Vars: vdefs, Sels: sels}
 							doc.Ops = []*model.Op{op}
 							text := doc.Print(model.LayoutN(total))
+							meta := kind == "meta-schema" || kind == "meta-type" // answered by ggql's own schema objects: truth table only
 							exp := ref.Execute(s, doc, "Q", vars, g, nil, ref.Flags{})
 							out := Do(h, Request{Text: text, OpName: "Q", Vars: vars, Entry: total}, nil)
 							c.Eval(text+fmt.Sprint(vars)+bk, sp || ip)
@@ -183,7 +198,7 @@ func runC09(c *run.Ctx) {
 								rep("errors on a valid request")
 								continue
 							}
-							if bk != "reflect" {
+							if bk != "reflect" && !strings.HasPrefix(kind, "meta-") {
 								called := false
 								for _, cl := range out.Calls {
 									if cl.Key.Field == key && cl.Key.Node == g.Nodes[len(g.Nodes)-1-depth].ID {
@@ -198,7 +213,14 @@ func runC09(c *run.Ctx) {
 									continue
 								}
 							}
-							if diff := Compare(exp, out, CompareOpts{}); diff != "" {
+							if meta {
+								if present {
+									want := map[string]string{"meta-schema": `{"queryType":{"name":"Query"}}`, "meta-type": `{"name":"A"}`}[kind]
+									if got := ref.Render(ref.Canon(m[key])); got != want {
+										rep("meta field value: " + got + ", expected " + want)
+									}
+								}
+							} else if diff := Compare(exp, out, CompareOpts{}); diff != "" {
 								rep("reference executor: " + diff)
 							}
 							_, _ = si, ii
@@ -208,6 +230,177 @@ func runC09(c *run.Ctx) {
 			}
 		}
 	}
-	c.MinNontriv = total * 2 / 3
 	c.Set("table_cells_per_backend", total/3)
+	hist := c09Histories(c, s, sdl)
+	c.MinNontriv = (total + hist) * 2 / 3
+}
+
+// c09Histories: the conditions are variables, the document is parsed ONCE and resolved under every assignment of the
+// variables (given true / given false / omitted so that the default decides), in several orders, and as two operations
+// of one document that share a fragment but declare different defaults. Each call is judged by the truth table alone:
+// inclusion must depend on the variables of that call only.
+func c09Histories(c *run.Ctx, s *model.Schema, sdl string) int {
+	kinds := []string{"field-leaf", "field-composite", "inline", "spread", "meta-typename"}
+	// a variable is either required (no default) or has a default of true/false
+	type vkind struct {
+		def    bool
+		defVal bool
+	}
+	vks := []vkind{{false, false}, {true, true}, {true, false}}
+	steps := 0
+	n := 0
+	for _, bk := range []string{"iface", "any", "reflect"} {
+		g := c09Graph()
+		h, err := back.Build(bk, s, sdl, g)
+		if err != nil {
+			c.Violation("c09-schema-rejected", map[string]interface{}{"sdl": sdl, "error": err.Error()})
+			return 0
+		}
+		for _, kind := range kinds {
+			for _, sk := range vks {
+				for _, ik := range vks {
+					for order := 0; order < 2; order++ {
+						for shared := 0; shared < 2; shared++ {
+							n++
+							mkVD := func(name string, k vkind, flip bool) *model.VarDef {
+								vd := &model.VarDef{Name: name, Type: model.NonNullOf(model.Named("Boolean"))}
+								if k.def {
+									vd.Type = model.Named("Boolean")
+									vd.HasDefault = true
+									vd.Default = k.defVal != flip
+								}
+								return vd
+							}
+							sd := model.DirUse{Name: "skip", Args: []model.Arg{{Name: "if", Value: model.VarRef("s")}}}
+							id := model.DirUse{Name: "include", Args: []model.Arg{{Name: "if", Value: model.VarRef("i")}}}
+							dirs := []model.DirUse{sd, id}
+							if order == 1 {
+								dirs = []model.DirUse{id, sd}
+							}
+							doc := &model.Doc{}
+							var target model.Sel
+							key := "tgt"
+							switch kind {
+							case "field-leaf":
+								target = &model.Field{Name: "tgt", Dirs: dirs}
+							case "field-composite":
+								key = "sub"
+								target = &model.Field{Name: "sub", Dirs: dirs, Sels: []model.Sel{&model.Field{Name: "inner"}}}
+							case "meta-typename":
+								key = "__typename"
+								target = &model.Field{Name: "__typename", Dirs: dirs}
+							case "inline":
+								target = &model.Inline{Cond: "Query", Dirs: dirs, Sels: []model.Sel{&model.Field{Name: "tgt"}}}
+							case "spread":
+								doc.Frags = append(doc.Frags, &model.FragDef{Name: "F", Cond: "Query", Sels: []model.Sel{&model.Field{Name: "tgt"}}})
+								target = &model.Spread{Name: "F", Dirs: dirs}
+							}
+							sels := []model.Sel{&model.Field{Name: "sib"}, target}
+							ops := []string{"Q"}
+							if shared == 1 {
+								// the directive-carrying selection sits in a fragment shared by two operations whose defaults are opposite
+								doc.Frags = append(doc.Frags, &model.FragDef{Name: "Shared", Cond: "Query", Sels: sels})
+								sels = []model.Sel{&model.Spread{Name: "Shared"}}
+								doc.Ops = []*model.Op{
+									{Kind: "query", Name: "Q", Vars: []*model.VarDef{mkVD("s", sk, false), mkVD("i", ik, false)}, Sels: sels},
+									{Kind: "query", Name: "R", Vars: []*model.VarDef{mkVD("s", sk, true), mkVD("i", ik, true)}, Sels: sels},
+								}
+								ops = []string{"Q", "R"}
+							} else {
+								doc.Ops = []*model.Op{{Kind: "query", Name: "Q", Vars: []*model.VarDef{mkVD("s", sk, false), mkVD("i", ik, false)}, Sels: sels}}
+							}
+							text := doc.Print(model.LayoutN(n))
+							exe, perr := h.Root.ParseExecutableString(text)
+							if perr != nil {
+								c.Violation("c09-history", map[string]interface{}{"backend": bk, "document": text, "diag": "valid document rejected: " + perr.Error()})
+								continue
+							}
+							// every assignment: 0 = given false, 1 = given true, 2 = omitted (only with a default)
+							type call struct {
+								op   string
+								s, i int
+							}
+							var calls []call
+							for _, op := range ops {
+								for sv := 0; sv < 3; sv++ {
+									for iv := 0; iv < 3; iv++ {
+										if (sv == 2 && !sk.def) || (iv == 2 && !ik.def) {
+											continue
+										}
+										calls = append(calls, call{op, sv, iv})
+									}
+								}
+							}
+							r := c.Rand(1000000 + n)
+							seq := append([]call{}, calls...)
+							r.Shuffle(len(seq), func(a, b int) { seq[a], seq[b] = seq[b], seq[a] })
+							seq = append(seq, calls...) // then once more in table order: every call also follows every other
+							var trace []string
+							bad := false
+							for _, cl := range seq {
+								vars := map[string]interface{}{}
+								truth := func(v int, k vkind, flip bool) bool {
+									if v == 2 {
+										return k.defVal != flip
+									}
+									return v == 1
+								}
+								flip := cl.op == "R"
+								if cl.s != 2 {
+									vars["s"] = cl.s == 1
+								}
+								if cl.i != 2 {
+									vars["i"] = cl.i == 1
+								}
+								present := !truth(cl.s, sk, flip) && truth(cl.i, ik, flip)
+								out := Do(h, Request{Exe: exe, OpName: cl.op, Vars: vars}, nil)
+								steps++
+								trace = append(trace, fmt.Sprintf("%s%v", cl.op, vars))
+								m, _ := out.Data.(map[string]interface{})
+								_, has := m[key]
+								_, sib := m["sib"]
+								diag := ""
+								switch {
+								case out.Panic != nil:
+									diag = "panic"
+								case m == nil:
+									diag = "no data"
+								case has != present:
+									diag = fmt.Sprintf("truth table: key %q present=%v, expected %v", key, has, present)
+								case !sib:
+									diag = "sibling selection lost"
+								case len(out.ErrPaths) > 0:
+									diag = "errors on a valid request"
+								}
+								if diag == "" && bk != "reflect" && kind != "meta-typename" {
+									called := false
+									for _, k := range out.Calls {
+										if k.Key.Field == key {
+											called = true
+										}
+									}
+									if called != present {
+										diag = fmt.Sprintf("call log: resolver for %q called=%v, expected %v", key, called, present)
+									}
+								}
+								if diag != "" {
+									c.Violation("c09-history-"+kind, map[string]interface{}{"backend": bk, "sdl": sdl, "document": text, "history": trace, "diag": diag, "observed": out.Describe()})
+									bad = true
+									break
+								}
+							}
+							c.Eval("hist"+text+bk+fmt.Sprint(r.Int63()), true)
+							c.Bucket("history_kind", kind)
+							if !bad && n%97 == 0 {
+								c.Sample(map[string]interface{}{"document": text, "backend": bk, "history_parse_once": trace})
+							}
+						}
+					}
+				}
+			}
+		}
+	}
+	c.Set("histories_parse_once", n)
+	c.Count("history_resolve_calls", steps)
+	return n
 }
